@@ -143,9 +143,14 @@ class Input(IInput, Loggable):
             with ErrorLogger(self.logger):
                 # grid transformations work on data without the leading time axis
                 slices = [self._transform(data[i, ...]) for i in range(data.shape[0])]
-                data = (
-                    slices[0][np.newaxis, ...] if len(slices) == 1 else np.stack(slices)
-                )
+                if len(slices) == 1:
+                    data = slices[0][np.newaxis, ...]
+                else:
+                    # np.stack would drop the masks of masked arrays
+                    mags = [s.magnitude for s in slices]
+                    masked = any(np.ma.isMaskedArray(m) for m in mags)
+                    stacked = np.ma.stack(mags) if masked else np.stack(mags)
+                    data = tools.UNITS.Quantity(stacked, slices[0].units)
             self.logger.profile(
                 "converted data between compatible grids (%d entries)", data.size
             )
